@@ -55,10 +55,37 @@ def node_calls(cnode):
 
 
 def fn_calls(fn):
-    out = [n for n in walk_no_nested(fn) if isinstance(n, ast.Call)] if not isinstance(fn, list) else \
-        [n for s in fn for n in walk_no_nested(s) if isinstance(n, ast.Call)]
-    out.sort(key=lambda c: (c.lineno, c.col_offset))
-    return out
+    """the calls of a function (nested scopes excluded) in the order of the statements that contain them, and by position
+    inside one statement.  (Statement order is structural, not by line number: inlined and unrolled statements keep the line
+    numbers of the code they were copied from.)"""
+    roots = fn if isinstance(fn, list) else [fn]
+    order = {}
+
+    def number(node):
+        # pre-order over statements, children in field order
+        if isinstance(node, ast.stmt):
+            order[id(node)] = len(order)
+        for c in ast.iter_child_nodes(node):
+            if isinstance(c, (ast.FunctionDef, ast.AsyncFunctionDef, ast.ClassDef, ast.Lambda)) and c is not node:
+                continue
+            number(c)
+    out = []
+
+    def collect(node, cur):
+        if isinstance(node, ast.stmt):
+            cur = order.get(id(node), cur)
+        if isinstance(node, ast.Call):
+            out.append((cur, getattr(node, "lineno", 0), getattr(node, "col_offset", 0), len(out), node))
+        for c in ast.iter_child_nodes(node):
+            if isinstance(c, (ast.FunctionDef, ast.AsyncFunctionDef, ast.ClassDef, ast.Lambda)):
+                continue
+            collect(c, cur)
+    for r in roots:
+        number(r)
+    for r in roots:
+        collect(r, -1)
+    out.sort(key=lambda t: t[:4])
+    return [t[4] for t in out]
 
 
 def kwarg(call, name):
